@@ -4,6 +4,7 @@ from ref import frames, gillham
 from vlib import dual, variants
 from vlib import volume
 from vlib import variants
+from vlib import gen
 from vlib.core import Leg, call
 
 PROPERTY = "C08"
@@ -57,8 +58,8 @@ def enum_idcar(ctx):
             if ctx.mine(idx):
                 rng = ctx.rng("id", code, car)
                 rcar = ctx.rng("id-fixed", car)  # one context shared by all codes of a carrier
-                yield {"code": code, "car": car, "ctx": [[rng.getrandbits(14), rng.getrandbits(56), rng.getrandbits(24), rng.choice("ULM"), rng.getrandbits(11), rng.getrandbits(32)] for _ in range(k)] +
-                       [[rcar.getrandbits(14), rcar.getrandbits(56), rcar.getrandbits(24), "U", rcar.getrandbits(11), rcar.getrandbits(32)]]}
+                yield {"code": code, "car": car, "ctx": [[rng.getrandbits(14), rng.getrandbits(56), gen.addr24(rng), rng.choice("ULM"), rng.getrandbits(11), rng.getrandbits(32)] for _ in range(k)] +
+                       [[rcar.getrandbits(14), rcar.getrandbits(56), gen.addr24(rcar), "U", rcar.getrandbits(11), rcar.getrandbits(32)]]}
 
 
 def digits(code):
@@ -111,7 +112,7 @@ def enum_surv(ctx):
                     if ctx.mine(idx):
                         rng = ctx.rng("surv", idx)
                         yield {"fs": fs, "dr": dr, "iis": iis, "ids": ids, "df": rng.choice([4, 5]), "ctx_low": rng.getrandbits(13),
-                               "ctx_addr": rng.getrandbits(24), "hc": rng.choice("ULM")}
+                               "ctx_addr": gen.addr24(rng), "hc": rng.choice("ULM")}
 
 
 def chk_surv(case, note):
@@ -149,7 +150,7 @@ def enum_allcall(ctx):
             if ctx.mine(idx):
                 rng = ctx.rng("ac", idx)
                 o = ov if isinstance(ov, int) else rng.randrange(80, 1 << 24)
-                yield {"ca": ca, "overlay": o, "ctx_aa": rng.getrandbits(24), "hc": rng.choice("ULM")}
+                yield {"ca": ca, "overlay": o, "ctx_aa": gen.addr24(rng), "hc": rng.choice("ULM")}
 
 
 def chk_allcall(case, note):
@@ -188,7 +189,7 @@ def enum_guards(ctx):
             if ctx.mine(idx):
                 rng = ctx.rng("g", df, j)
                 n = 56 if df < 16 else 112
-                yield {"df": df, "ctx_body": [0, (1 << (n - 29)) - 1][j] if j < 2 else rng.getrandbits(n - 29), "ctx_addr": rng.getrandbits(24), "hc": rng.choice("ULM")}
+                yield {"df": df, "ctx_body": [0, (1 << (n - 29)) - 1][j] if j < 2 else rng.getrandbits(n - 29), "ctx_addr": gen.addr24(rng), "hc": rng.choice("ULM")}
 
 
 def chk_guards(case, note):
@@ -241,7 +242,7 @@ def first_jobs(rng):
         body = (rng.getrandbits(14) << 13) | code
         if n == 112:
             body = (body << 56) | rng.getrandbits(56)
-        msg = frames.tohex(frames.raw(df, body, n, rng.getrandbits(24)), n, rng.choice("UL"))
+        msg = frames.tohex(frames.raw(df, body, n, gen.addr24(rng)), n, rng.choice("UL"))
         jobs.append(("common.idcode", (msg,), ("ok", digits(code))))
         if df == 5:
             jobs.append(("surv.identity", (msg,), ("ok", digits(code))))
